@@ -206,4 +206,15 @@ CLAIMS["C07"] = {
     "technique": "constructor-argument dataflow over the class methods + normal forms of the ufunc / assignment paths + statement-order idiom (AST)",
 }
 
+CLAIMS["C09"] = {
+    "text": "Decides by symbolic length analysis (array lengths as linear forms over the number of records and gaps, propagated through insert / append / slicing) that on all 17 return paths "
+            "of GenomicRunLengthArray.from_bedgraph the run-length invariant len(values) == len(events) - 1 holds at the constructor call and that starts and values are extended together, "
+            "that from_intervals cuts the values to len(events) - 1 before construction, that the dense expansion reinterprets each float width as the unsigned integer of the same width and "
+            "views the result back as the original dtype with the xor-difference / accumulate statements in the form the expansion needs, and that genome-wide ufuncs / array functions unwrap "
+            "every genomic operand in operand order and re-wrap with the same genome context, with per-chromosome views sliced [offset, offset + size) in genome order.",
+    "note": _NOTE + "Not decided: the dense values themselves and arithmetic results (run-length algebra of npstructures); a change that calls an opaque helper on events/values makes R1 "
+                    "unreadable and is reported as ANALYSIS-ERROR, not as a verdict.",
+    "technique": "symbolic array lengths (linear forms) with path enumeration + width table / normal-form comparison + operand-order check (AST)",
+}
+
 NOT_APPLICABLE = {}
